@@ -708,7 +708,9 @@ class Rule(ScenarioContainer):
     def add_background(self, background, inherited=None):
         if inherited is None:
             feature = self.feature or self.parent
-            inherited = feature.background
+            if feature:
+                # -- HINT: A rule can be parsed without a feature.
+                inherited = feature.background
 
         self.background = background
         self.background.inherited_background = inherited
